@@ -18,12 +18,19 @@ QUICK = [
     ("S2", HOLD_DESC, 2, "STRUCT"),
     ("S1r", DROP_ASC, 2, "STRUCT"),
 ]
-THOROUGH = []
-for _c in (DROP_ASC, HOLD_DESC, DROP_DESC, HOLD_ASC):
-    THOROUGH += [("S1", _c, 3, "FULL"), ("S2", _c, 2, "FULL"), ("S2r", _c, 2, "FULL"), ("S0", _c, 4, "FULL"),
-                 ("S2", _c, 3, "STRUCT"), ("S1", _c, 4, "STRUCT"), ("S1r", _c, 3, "STRUCT")]
-
-THOROUGH += [("S2", GC_DROP, 2, "GCOPS"), ("S4", GC_DROP, 1, "GCOPS")]
+THOROUGH = [
+    ("S1", DROP_ASC, 3, "FULL"),
+    ("S2", HOLD_DESC, 2, "FULL"),
+    ("S2", DROP_DESC, 2, "FULL"),
+    ("S2r", DROP_ASC, 2, "FULL"),
+    ("S4", HOLD_ASC, 2, "FULL"),
+    ("S0", DROP_ASC, 4, "FULL"),
+    ("S1", HOLD_DESC, 3, "STRUCT"),
+    ("S2", DROP_ASC, 2, "STRUCT"),
+    ("S1r", HOLD_ASC, 3, "STRUCT"),
+    ("S2", GC_DROP, 2, "GCOPS"),
+    ("S4", GC_DROP, 1, "GCOPS"),
+]
 
 P = TreeProp(
     "C02",
